@@ -1,6 +1,6 @@
 """
 Harness pieces for the recalculation properties (C05 C06 C18):
-  * schedule permutation: wraps Engine._make_sorted_work_items (lookup nodes stay first);
+  * schedule permutation: wraps Engine._make_sorted_work_items (lookup nodes stay first, in any order among themselves);
   * evaluation trace: wraps Engine._recompute_one_cell (which cells finished, in which order,
     whether through the cycle branch);
   * read audit: wraps Engine._use_node — at the time a formula reads specific rows of a node,
@@ -33,6 +33,8 @@ def install():
     look = [w for w in items if w.node.col_id.startswith('#lookup')]
     rest = [w for w in items if not w.node.col_id.startswith('#lookup')]
     rng.shuffle(rest)
+    # the engine's own rule only says that lookup indexes go first: their relative order is free too
+    rng.shuffle(look)
     return rest + look
   E._make_sorted_work_items = _make_sorted_work_items
 
